@@ -464,6 +464,30 @@ pub fn gen_routing(t: &mut Tape, g: &G, free: &[Vec<f64>], masses: &[f64], max_o
     transform_routing(t, &mut sig, &mut shifts, max_ops, true);
     Kin { sig, shifts, masses: masses.to_vec(), inflow }
 }
+/// round to the 2^-16 grid: sums of a few such numbers are exact in f64, so two routings of the same
+/// kinematics are *exactly* equivalent (needed when the comparison is sharper than f64)
+pub fn grid16(v: f64) -> f64 {
+    (v * 65536.0).round() / 65536.0
+}
+pub fn gen_routing_exact(t: &mut Tape, g: &G, free: &[Vec<f64>], masses: &[f64], max_ops: usize) -> Kin {
+    let tree = random_tree(t, g);
+    let (mut sig, mut shifts, inflow) = base_routing(g, &tree, free);
+    transform_routing(t, &mut sig, &mut shifts, max_ops, false);
+    // offsets on the grid
+    if t.chance(0.4) {
+        let nl = sig[0].len();
+        let d = g.d;
+        for l in 0..nl {
+            let c: Vec<f64> = (0..d).map(|_| grid16(t.uniform(-1.0, 1.0))).collect();
+            for e in 0..sig.len() {
+                for k in 0..d {
+                    shifts[e][k] += sig[e][l] as f64 * c[k];
+                }
+            }
+        }
+    }
+    Kin { sig, shifts, masses: masses.to_vec(), inflow }
+}
 pub fn gen_kin(t: &mut Tape, g: &G, max_ops: usize) -> Kin {
     let (free, masses) = gen_kin_data(t, g);
     gen_routing(t, g, &free, &masses, max_ops)
